@@ -1104,7 +1104,14 @@ def lifo_restore_rule(m, rid):
         if not any(isinstance(c, ast.Call) and isinstance(c.func, ast.Attribute) and c.func.attr == "restore_reader" for c in A.calls(f.node)):
             continue
         r.instances += 1
-        cl = LifoClient("content")
+        # the list whose elements the matcher keeps: the one it returns (`return (content,)` / `return content, ...`)
+        keep = "content"
+        for ret in A.returns(f.node):
+            v = ret.value
+            if isinstance(v, ast.Tuple) and v.elts and isinstance(v.elts[0], ast.Name):
+                keep = v.elts[0].id
+                break
+        cl = LifoClient(keep)
         try:
             LifoFlow(m, f, cl).run(F.State({"$stack": F.const(())}))
         except AnalysisError as err:
